@@ -599,6 +599,16 @@ func (p *pinner) isPinnedWithType(ctx context.Context, c cid.Cid, mode ipfspinne
 	case ipfspinner.Internal:
 		return "", false, nil
 	case ipfspinner.Indirect:
+		// A recursively pinned CID is never reported as indirect, even when it
+		// is also a child of another recursive pin (same rule as
+		// checkIndirectPins).
+		has, err := p.cidRIndex.HasAny(ctx, cidKey)
+		if err != nil {
+			return "", false, err
+		}
+		if has {
+			return "", false, nil
+		}
 	case ipfspinner.Any:
 		has, err := p.cidRIndex.HasAny(ctx, cidKey)
 		if err != nil {
